@@ -8,7 +8,7 @@ CHECKS = {
  "C01": ("exploration", "reference-model monitor over recorded query histories on live GameData handles + order-independence invariant (fresh-handle replay in another order); unique payload per stored location",
          "Each exists/find_offset/extract return on randomly generated installations is compared with an independent index model defined on hashes; every stored location carries a unique id so a wrong dat/offset/chunk is visible; histories are replayed in another order on a fresh handle to expose cache-dependent answers.",
          "SqPack index/dat layout as documented; leniency for repositories that are named but not installed"),
- "C02": ("exploration", "equality monitor against the independent packer's input + residual-heap and allocation monitors; ASan/LSan run of the same workload",
+ "C02": ("exploration", "equality monitor against the independent packer's input + residual-heap and allocation monitors; ASan/LSan run of the same workload; Miri (UB + leak interpreter) on a small slice in the thorough tier",
          "Entries of all three kinds packed by an independent Python packer (Python zlib streams of every block type, arbitrary splits) are read back through the real library and compared byte for byte / section by section; the allocator monitor checks that nothing stays allocated after each call and ASan+LSan watch the unsafe slice cast and the inflate path.",
          "Python zlib; entry layouts as documented"),
  "C03": ("exploration", "conservation monitor: directory tree after apply == Python interpreter of the reference ZiPatch semantics on the same abstract op list; strace syscall monitor on one-shot applies (thorough)",
@@ -32,7 +32,7 @@ CHECKS = {
  "C09": ("exploration", "cross-codec monitor in both directions with an independent by-offset codec anchored on retail-made samples",
          "Files built by an independent Python codec are parsed by the library and files written by the library are decoded by the Python codec, so a symmetric reader/writer mistake is visible; all race/tribe/gender codes, every value of every byte field, comment lengths 0..163 and id classes (incl. ids overlapping the marker bits) are swept.",
          "documented offsets; additive item-id marker"),
- "C10": ("exploration", "cross-codec monitor: independent FileInfo record parser + os.stat + hashlib.sha1; independent patch-list wire parser",
+ "C10": ("exploration", "cross-codec monitor: independent FileInfo record parser + os.stat + hashlib.sha1; independent patch-list wire parser; Miri on a small slice (SHA-1 block view) in the thorough tier",
          "Every table/list the library writes is decoded independently and every independently built one is parsed by the library; lengths cover every SHA-1 padding boundary, sizes up to 2^62.",
          "hashlib/os.stat trusted; wire format as served by the patch servers"),
  "C11": ("exploration", "reference-model monitor: pi-derived Blowfish reference (self-checked on 16 published vectors) over recorded encrypt/decrypt calls",
@@ -50,13 +50,13 @@ CHECKS = {
  "C15": ("exploration", "table monitor over completely enumerated finite domains + injectivity invariant + ordering monitor over permutations (sort() and on-disk discovery)",
          "All race/tribe/gender triples, all file-name tuples and (thorough) all equipment ids x slots x triples and all permutations of all subsets up to 7 repositories are enumerated through the real functions and compared with independent tables; the finite parts are exhaustive, the cross-check with patch-side names and discovery orders is sampled.",
          "race-code table and naming conventions of the retail client are trusted"),
- "C17": ("fault_enumeration", "panic / abort / CPU / allocation / residual-heap monitors inside the worker over enumerated faults of valid files; Err-on-partial-failure monitor for patches (prefixes, unwritable targets, strace-injected EIO/ENOSPC at every I/O step)",
+ "C17": ("fault_enumeration", "panic / abort / CPU / allocation / residual-heap monitors inside the worker over enumerated faults of valid files; Err-on-partial-failure monitor for patches (prefixes, unwritable targets, strace-injected EIO/ENOSPC at every I/O step); Miri over a stratified sample of the faults (thorough)",
          "Every truncation point and every single-field corruption (several widths, endiannesses and boundary values) of valid seeds of each user/launcher format is executed against the real entry point under in-process monitors; patches additionally under I/O fault sequences. A finite run restates 'never runs unboundedly / out of proportion' as CPU and allocation budgets.",
          "budgets as stated in DESIGN 3.2/3.3; crash sites identified by source line text"),
- "C18": ("fault_enumeration", "panic / abort / CPU / allocation / residual-heap monitors + ASan/LSan over enumerated faults of valid generated assets and archives; fault sequences on live GameData handles",
+ "C18": ("fault_enumeration", "panic / abort / CPU / allocation / residual-heap monitors + ASan/LSan over enumerated faults of valid generated assets and archives; fault sequences on live GameData handles; Miri over a stratified sample of the faults and the failed-inflate leak case (thorough)",
          "Valid instances of every asset format produced by the independent builders are damaged field by field and prefix by prefix so that the arithmetic behind the magic checks runs on hostile values; archives are damaged between open and read on live handles; the allocator monitor and LSan decide the no-leak clause for failed decompression. Parser-wide crash sites that are not repaired are listed known findings keyed by site.",
          "budgets as stated in DESIGN 3.2/3.3; known findings in known_findings.json"),
- "C12": ("exploration", "reference-model monitor (zlib.crc32 / bitwise CRC / hashlib.sha1) over recorded hash calls",
+ "C12": ("exploration", "reference-model monitor (zlib.crc32 / bitwise CRC / hashlib.sha1) over recorded hash calls; Miri on a small slice (zlib-rs crc32 FFI-style call, SHA-1 block view) in the thorough tier",
          "Every recorded hash call of the real library is compared with two independent implementations; held on tens of thousands of strings over all ASCII code points and lengths 0..4096 and on files of every length 0..300 plus all SHA-1 padding boundaries up to 4 MiB. Exploration is the right level: the input space is unbounded and the oracle is exact.",
          "Python zlib/hashlib are trusted; ASCII paths only"),
 }
